@@ -216,6 +216,11 @@ structure DState where
       reported; the model keeps stepping so that the monitors can still look for a concrete
       property violation in the implementation's outputs (reported with a marker) -/
   diverged : Bool := false
+  /-- the implementation's own account of idleness: since the last op that can create work its
+      `consume` returned "nothing to do" … -/
+  quiet : Bool := false
+  /-- … and these links were drained and had nothing (since that `consume`) -/
+  drainedEmpty : List Nat := []
 
 def splitOut (out : String) : String × List String :=
   match out.splitOn " ; " with
@@ -226,6 +231,16 @@ def handler (prop : String) (wrong : Bool) : Handler DState where
   init := { prop, wrong }
   step := fun st op out =>
     let (res, choiceStrs) := splitOut out
+    let st : DState := match op with
+      | ["consume"] => if res == "0" then { st with quiet := true, drainedEmpty := [] } else { st with quiet := false, drainedEmpty := [] }
+      | ["drain", l] =>
+        if res == "nolink" then st
+        else if res.endsWith " n=0" then (match l.toNat? with | some l => if st.quiet then { st with drainedEmpty := st.drainedEmpty ++ [l] } else st | none => st)
+        else { st with quiet := false, drainedEmpty := [] }
+      | ["idle"] => st
+      | "note" :: _ => st
+      | ["snap"] => st
+      | _ => { st with quiet := false, drainedEmpty := [] }
     match op with
     | ["new", mc, ss, sc, mo, strat] =>
       match nat? mc, nat? ss, nat? sc, nat? mo with
@@ -256,10 +271,12 @@ def handler (prop : String) (wrong : Bool) : Handler DState where
         -- `idle` is the generator's claim that nothing is left to do; a replay that was cut or
         -- shrunk may carry the claim into a state where it is false, so it is re-established on
         -- the model: no runnable connection, nothing unread in either direction of a live link
-        let quiescent := s.readyqueue.all (fun id => (getConn s id).isNone) &&
-          s.conns.entries.all (fun c => match c with
-            | none => true
-            | some c => (getLink s c.link).ibuf.isEmpty && (getLink s c.link).obuf.isEmpty)
+        -- (established on what the IMPLEMENTATION showed — its consume returned "nothing to do" and
+        -- every live link was drained empty afterwards — not on the model's state: a lost wake-up
+        -- is exactly the case in which the implementation is idle and the model is not)
+        let _ := s
+        let quiescent := st.quiet &&
+          (st.mon.links.zipIdx).all (fun (lm, l) => !lm.live || st.drainedEmpty.contains l)
         -- ... and every live link has acknowledged every QoS>0 forward it was handed (what the
         -- link saw and pushed, not what the router believes)
         let acked := st.mon.links.all (fun lm => !lm.live || lm.window.isEmpty)
